@@ -97,7 +97,7 @@ def split_disabled(rng, v):
 def send_sync_check(E):
     g = E["generics"]
     inst = {"none": "", "ty": "<std::rc::Rc<u8>>", "tywhere": "<std::rc::Rc<u8>>", "const": "<3>", "tyconst": "<std::rc::Rc<u8>, 2>",
-            "tydef": "<std::rc::Rc<u8>>", "constdef": "<3>"}[g]
+            "tydef": "<std::rc::Rc<u8>>", "constdef": "<3>", "tynd": "<NoDef>", "tyq": "<str>"}[g]
     return ("fn _assert_send_sync<X: Send + Sync>() {}\nfn _check_send_sync() { _assert_send_sync::<%sIter%s>(); }\n" % (E["name"], inst))
 
 
@@ -235,8 +235,8 @@ def table_module(E, depth, steps):
             "    fn all(mask: &[bool]) -> Option<Vec<u8>> {\n"
             "        let t: %sTable<Option<u8>> = %sTable::from_closure(|k: %s| { let p = pos(k.decl_index()); if mask[p] { Some(11 + p as u8) } else { None } });\n"
             "        t.all().map(|t| %s)\n    }\n"
-            "    fn all_ok(mask: &[bool]) -> Result<Vec<u8>, u8> {\n"
-            "        let t: %sTable<Result<u8, u8>> = %sTable::from_closure(|k: %s| { let p = pos(k.decl_index()); if mask[p] { Ok(11 + p as u8) } else { Err(1 + p as u8) } });\n"
+            "    fn all_ok(mask: &[bool]) -> ::core::result::Result<Vec<u8>, u8> {\n"
+            "        let t: %sTable<::core::result::Result<u8, u8>> = %sTable::from_closure(|k: %s| { let p = pos(k.decl_index()); if mask[p] { Ok(11 + p as u8) } else { Err(1 + p as u8) } });\n"
             "        t.all_ok().map(|t| %s)\n    }\n"
             "    fn default_table() -> Self { Default::default() }\n"
             "}\n" % (n, ", ".join(map(str, en)), ", ".join(map(str, dis)), n, ", ".join("a[%d]" % p for p in range(len(en))),
